@@ -1,4 +1,5 @@
 use similar::DiffOp;
+use std::borrow::Cow;
 use std::collections::{HashMap, VecDeque};
 use std::ops::Range;
 use std::path::PathBuf;
@@ -30,13 +31,61 @@ pub fn line_changes_from_diff(
         }
         // Git prefixes the new path with exactly one "b/"; a directory that is itself named "b"
         // must survive (`b/b/file` is `b/file`), so strip the prefix once, not repeatedly.
-        let target_path = patched_file
-            .target_file
-            .strip_prefix("b/")
-            .unwrap_or(&patched_file.target_file);
+        let target_file = unquote_git_path(&patched_file.target_file);
+        let target_path = target_file.strip_prefix("b/").unwrap_or(&target_file);
         result.insert(target_path.into(), line_changes(&patched_file));
     }
     Ok(result)
+}
+
+/// Git writes a path that contains "unusual" characters (control characters, `"`, `\\` and, with
+/// the default `core.quotePath`, every non-ASCII byte) in double quotes with C-style escapes:
+/// `"b/caf\303\251.py"`. Returns the path such a name stands for; anything else is returned as is.
+fn unquote_git_path(path: &str) -> Cow<'_, str> {
+    let Some(quoted) = path
+        .strip_prefix('"')
+        .and_then(|rest| rest.strip_suffix('"'))
+    else {
+        return Cow::Borrowed(path);
+    };
+    let mut bytes = Vec::with_capacity(quoted.len());
+    let mut input = quoted.bytes().peekable();
+    while let Some(byte) = input.next() {
+        if byte != b'\\' {
+            bytes.push(byte);
+            continue;
+        }
+        match input.next() {
+            Some(b'a') => bytes.push(0x07),
+            Some(b'b') => bytes.push(0x08),
+            Some(b't') => bytes.push(b'\t'),
+            Some(b'n') => bytes.push(b'\n'),
+            Some(b'v') => bytes.push(0x0b),
+            Some(b'f') => bytes.push(0x0c),
+            Some(b'r') => bytes.push(b'\r'),
+            Some(first @ b'0'..=b'3') => {
+                // Up to three octal digits.
+                let mut value = first - b'0';
+                for _ in 0..2 {
+                    match input.peek() {
+                        Some(digit @ b'0'..=b'7') => {
+                            value = value * 8 + (digit - b'0');
+                            input.next();
+                        }
+                        _ => break,
+                    }
+                }
+                bytes.push(value);
+            }
+            // `\"`, `\\` and anything unknown stand for the character itself.
+            Some(other) => bytes.push(other),
+            None => bytes.push(b'\\'),
+        }
+    }
+    match String::from_utf8(bytes) {
+        Ok(unquoted) => Cow::Owned(unquoted),
+        Err(_) => Cow::Borrowed(path),
+    }
 }
 
 fn line_changes(patched_file: &PatchedFile) -> Vec<LineChange> {
